@@ -1,4 +1,5 @@
 import Model.Attempt
+import Proofs.C12
 import Proofs.Lemmas.Attempt
 import Proofs.C13
 /-!
@@ -103,5 +104,15 @@ theorem history_conservation (cfg : Cfg) (os : List Outcome) (m : Msg)
 
 example : (attempt ⟨fun a => if a < 2 then some 0 else none, true, true⟩ ⟨[0, 1, 2], 1⟩
     (.mapping [(0, .ok), (1, .temp 4), (2, .perm 5)])).msg = none := by decide
+
+/-- **Never unscheduled** (the "eventually" half, as a safety statement over the scheduler's
+    transition system, calm environment): in every reachable state a stored message the queue knows
+    about is being handed off, in flight, finishing (retry / removal pending), waiting for its
+    `_dequeue` task, or in the timetable with the scheduler loop due to wake by its time. Together
+    with `C12.due_is_dispatched` nothing accepted is ever left without a next step. -/
+theorem accepted_never_unscheduled {pre : List (Nat × Nat)} (hpre : (pre.map (·.1)).Nodup) {s : Sched.State}
+    (hr : C12.Reach (C12.start pre) s) (id : Nat) (hk : id ∈ s.known) (hs : id ∈ Sched.sIds s) :
+    C12.Whereabouts s id :=
+  C12.never_forgotten hpre hr id hk hs
 
 end Slimta.C01
